@@ -173,6 +173,29 @@ def main(tier, seed, replay=None):
         tw["meta"]["weights"] = "none"
         kinds["masked0"] = kinds.get("masked0", 0) + 1
         pairs.append((cw, tw, None, "masked0"))
+    # finite weights times finite model values can overflow: the weighted problem then has no state at those parameters — exactly like
+    # the row-scaled twin, whose model values are themselves infinite there — and both recover at the next good update
+    for j in range(6 if tier == "quick" else 60):
+        c = gen_problem(rng, quant=None, weights="none", builder_made=False, family=["cosmix", "shared", "exp3"][j % 3], N=10,
+                        scalar="f64", ctor=["new", "mrhs", "new_parallel", "mrhs_parallel"][j % 4])
+        sc = c["scalar"]
+        N = c["meta"]["N"]
+        w = [1.0, -2.0, 0.0, 0.5, 3.0][: N % 5] + [1.0] * N
+        w = w[:N]
+        w[N - 1] = [1e200, -1e250, 1e180][j % 3]
+        cw = copy.deepcopy(c)
+        cw["build"].append(["weights", [hx(v, sc) for v in w]])
+        rng.shuffle(cw["build"])
+        cw["meta"]["weights"] = "overflowing"
+        cw["no_exact"] = True
+        bad = [hx(-130.0, sc)] * c["meta"]["P"]           # exp(130 x) ~ 1e141 at x = 2.5: finite, but not after weighting
+        ops = list(states.OBS) + [["set", bad]] + states.OBS + [["set", c["model"]["init"]]] + states.OBS
+        cw["ops"] = ops
+        tw = scaled_twin(cw, w)
+        tw["ops"] = ops
+        tw["meta"]["weights"] = "none"
+        kinds["overflowing"] = kinds.get("overflowing", 0) + 1
+        pairs.append((cw, tw, None, "overflowing"))
     cases = []
     for cw, tw, third, kind in pairs:
         cases += [cw, tw] + ([third] if third is not None else [])
